@@ -1002,6 +1002,40 @@ def corr_small(ctx, rng, n):
     return out
 
 
+# =========================================================================== what is modelled / regenerated / oracle-only
+# every implementation object coq/Model/C18_ExcBody.v mirrors by hand (the last group is stdlib code webob calls)
+MODELLED = [
+    "webob.util:html_escape",
+    "webob.exc:lazify", "webob.exc:_lazified", "webob.exc:no_escape", "webob.exc:strip_tags",
+    "webob.exc:tag_re", "webob.exc:br_re", "webob.exc:comment_re",
+    "webob.exc:WSGIHTTPException.__init__", "webob.exc:WSGIHTTPException._make_body",
+    "webob.exc:WSGIHTTPException.plain_body", "webob.exc:WSGIHTTPException.html_body",
+    "webob.exc:WSGIHTTPException.json_formatter", "webob.exc:WSGIHTTPException.json_body",
+    "webob.exc:WSGIHTTPException.generate_response", "webob.exc:WSGIHTTPException.__call__",
+    "webob.exc:_HTTPMove.__call__",
+    "webob.acceptparse:AcceptValidHeader.acceptable_offers", "webob.acceptparse:AcceptInvalidHeader.acceptable_offers",
+    "webob.response:Response.__init__", "webob.response:Response.__call__", "webob.response:Response.has_body",
+    "webob.response:Response._content_type__get", "webob.response:Response._content_type__set",
+    "webob.response:Response.content_length",
+    "webob.headers:ResponseHeaders.__getitem__", "webob.headers:ResponseHeaders.__setitem__",
+    "webob.headers:ResponseHeaders.__delitem__",
+    "html:escape", "string:Template.pattern", "string:Template.safe_substitute", "string:Template.substitute",
+    "json:dumps", "json.encoder:py_encode_basestring_ascii",
+]
+# translated into coq/Gen/C18_exctable.v by gen(); run() adds every WSGIHTTPException subclass of webob.exc
+# (code, title, explanation, body_template_obj, empty_body, status_map membership flags)
+REGENERATED = ["webob.exc:status_map", "webob.exc:WSGIHTTPException.body_template_obj",
+               "webob.exc:WSGIHTTPException.html_template_obj", "webob.exc:WSGIHTTPException.plain_template_obj"]
+# exercised by the oracle / used to produce model inputs, not modelled
+ORACLE_ONLY = ["webob.request:BaseRequest.blank", "webob.request:BaseRequest.get_response",
+               "webob.request:BaseRequest.call_application", "webob.acceptparse:create_accept_header",
+               "webob.acceptparse:Accept.parse", "webob.acceptparse:AcceptValidHeader.__init__",
+               "webob.acceptparse:Accept._parse_and_normalize_offers",
+               "webob.response:Response._make_location_absolute", "webob.response:Response._abs_headerlist",
+               "webob.response:Response.body", "webob.response:Response.text", "webob.response:Response.charset",
+               "webob.response:EmptyResponse", "webob.exc:_HTTPMove.__init__", "webob.descriptors:header_getter"]
+
+
 # =========================================================================== the check
 def report(ctx, res, case, source):
     key, msg = res
@@ -1010,6 +1044,9 @@ def report(ctx, res, case, source):
 
 
 def run(ctx):
+    ctx.modelled(MODELLED)
+    ctx.extra["regenerated_from_source"] = REGENERATED + ["webob.exc:%s" % n for n in class_names()]
+    ctx.extra["oracle_only"] = ORACLE_ONLY
     problems = []
     try:
         problems = gen(ctx)
